@@ -61,13 +61,13 @@ def rule_a1(ctx: Ctx, po: PermOps) -> None:
         got[(mname, args)] = m
         label = f"{mname}({', '.join(map(str, args))})"
         if not is_grid_bijection(m):
-            ctx.violation("C04-A1", fi, fi.node, f"Perm.{label} moves the point (i, v) to {m!r}: not a signed coordinate permutation with offsets 0 / n-1, so the result is not a symmetry of the square (may not even be a permutation)")
+            ctx.violation("C04-A1", fi, fi.node, f"Perm.{label} moves the point (i, v) to {m!r}: not a signed coordinate permutation with offsets 0 / n-1, so the result is not a symmetry of the square (may not even be a permutation)", robust=True)
             continue
         if m == D4_POINT[want]:
             ctx.ok("C04-A1", fi.where, f"Perm.{label}: (i, v) -> ({m.a!r}, {m.b!r}) = {want}", fi.node, fi)
         else:
             actual = name_of_point_map(m)
-            ctx.violation("C04-A1", fi, fi.node, f"Perm.{label} acts as (i, v) -> ({m.a!r}, {m.b!r}){' = ' + actual if actual else ''}; the documented symmetry is {want}: (i, v) -> ({D4_POINT[want].a!r}, {D4_POINT[want].b!r})")
+            ctx.violation("C04-A1", fi, fi.node, f"Perm.{label} acts as (i, v) -> ({m.a!r}, {m.b!r}){' = ' + actual if actual else ''}; the documented symmetry is {want}: (i, v) -> ({D4_POINT[want].a!r}, {D4_POINT[want].b!r})", robust=True)
     if len(got) < len(PERM_TABLE):
         return
     # dihedral relations on the extracted maps
@@ -92,7 +92,7 @@ def rule_a1(ctx: Ctx, po: PermOps) -> None:
         if lhs == rhs:
             ctx.ok("C04-A1", rot.where, f"relation {name} holds on the extracted maps (identity in n)")
         else:
-            ctx.violation("C04-A1", rot, rot.node, f"dihedral relation {name} fails on the extracted maps: {lhs!r} vs {rhs!r}")
+            ctx.violation("C04-A1", rot, rot.node, f"dihedral relation {name} fails on the extracted maps: {lhs!r} vs {rhs!r}", robust=True)
 
 
 def rule_a2(ctx: Ctx) -> None:
@@ -121,7 +121,7 @@ def rule_a2(ctx: Ctx) -> None:
                         ctx.ok("C04-A2", fi.where, f"`{unparse(st)}`: every integer count is reduced to its residue in 0..3 (Python % is non-negative); the four residues are covered (A1/A3 extract one map per residue)", st, fi)
                         continue
                     if isinstance(st.value, ast.BinOp) and isinstance(st.value.op, ast.Mod) and uses & raw:
-                        ctx.violation("C04-A2", fi, st, f"rotation count is normalised by `{unparse(st.value)}`; only `{p} % 4` maps every integer (negative included) to the right quarter-turn count")
+                        ctx.violation("C04-A2", fi, st, f"rotation count is normalised by `{unparse(st.value)}`; only `{p} % 4` maps every integer (negative included) to the right quarter-turn count", robust=True)
                         verdict_done = True
                         break
                     if isinstance(st.value, ast.Name) and st.value.id in reduced:
@@ -142,7 +142,7 @@ def rule_a2(ctx: Ctx) -> None:
                         if isinstance(n, ast.Name) and n.id in raw and id(n) not in covered:
                             bad = True
                     if bad:
-                        ctx.violation("C04-A2", fi, st, f"the rotation count `{p}` is not reduced modulo 4 before the case analysis (`{unparse(node.test)}`): counts outside 0..3 (negative ones included) fall into the wrong case")
+                        ctx.violation("C04-A2", fi, st, f"the rotation count `{p}` is not reduced modulo 4 before the case analysis (`{unparse(node.test)}`): counts outside 0..3 (negative ones included) fall into the wrong case", robust=True)
                         verdict_done = True
                         break
             if verdict_done:
@@ -166,7 +166,7 @@ def rule_a3(ctx: Ctx, po: PermOps, mo: MeshOps) -> None:
             continue
         label = f"MeshPatt.{mname}({', '.join(map(str, args))})"
         if pm != D4_POINT[want]:
-            ctx.violation("C04-A3", fi, fi.node, f"{label} applies {name_of_point_map(pm) or repr(pm)} to the underlying pattern; its name/argument states {want}")
+            ctx.violation("C04-A3", fi, fi.node, f"{label} applies {name_of_point_map(pm) or repr(pm)} to the underlying pattern; its name/argument states {want}", robust=True)
             continue
         try:
             ind = induced_cell_map(pm)
@@ -176,7 +176,7 @@ def rule_a3(ctx: Ctx, po: PermOps, mo: MeshOps) -> None:
         if cm == ind:
             ctx.ok("C04-A3", fi.where, f"{label}: pattern moved by {want}, cells by (x, y) -> ({cm.a!r}, {cm.b!r}) = the map induced on cells", fi.node, fi)
         else:
-            ctx.violation("C04-A3", fi, fi.node, f"{label} moves the points by {want} but the shaded cells by (x, y) -> ({cm.a!r}, {cm.b!r}); the induced cell map is (x, y) -> ({ind.a!r}, {ind.b!r}): shading and points are transformed inconsistently")
+            ctx.violation("C04-A3", fi, fi.node, f"{label} moves the points by {want} but the shaded cells by (x, y) -> ({cm.a!r}, {cm.b!r}); the induced cell map is (x, y) -> ({ind.a!r}, {ind.b!r}): shading and points are transformed inconsistently", robust=True)
 
 
 # ------------------------------------------------------------------ A4: abstract execution over D4
@@ -410,11 +410,11 @@ def rule_a4(ctx: Ctx, po: PermOps, mo: MeshOps) -> None:
         else:
             H, got, missing, foreign, want = bad
             kind = "an asymmetric input" if len(H) == 1 else f"an input fixed by {sorted(name_of_point_map(h) or repr(h) for h in H if h != D4_POINT['id'])}"
-            ctx.violation("C04-A4", fi, fi.node, f"{label} returns {len(got)} of the {len(want)} symmetric images of {kind}; missing the images under {missing}{' foreign ' + str(foreign) if foreign else ''}: not the whole orbit")
+            ctx.violation("C04-A4", fi, fi.node, f"{label} returns {len(got)} of the {len(want)} symmetric images of {kind}; missing the images under {missing}{' foreign ' + str(foreign) if foreign else ''}: not the whole orbit", robust=True)
         if label == "all_symmetry_sets":
             bad = [w for w in ob.wrappers_on_collected if not (w.startswith("tuple/sorted") or w.startswith("frozenset"))]
             if bad:
-                ctx.violation("C04-A4", fi, fi.node, f"a collected image is not put in canonical form tuple(sorted(..)) (wrappers {bad}): equal sets in different order would count as different images and lex_min would depend on the input order")
+                ctx.violation("C04-A4", fi, fi.node, f"a collected image is not put in canonical form tuple(sorted(..)) (wrappers {bad}): equal sets in different order would count as different images and lex_min would depend on the input order", robust=True)
             else:
                 ctx.ok("C04-A4", fi.where, "every collected image is canonical: tuple(sorted(..))", fi.node, fi)
     lm = repo.func("permuta.permutils.symmetry:lex_min")
@@ -472,7 +472,7 @@ def helper_maps(ctx: Ctx, po: PermOps, record: bool = True) -> Dict[str, Map2]:
         g = ge.generators[0]
         if g.ifs or unparse(g.iter) != fi.params[0] or not isinstance(g.target, ast.Name):
             if record:
-                ctx.violation("C04-A5", fi, body[0], f"{name} does not map every element of its argument")
+                ctx.violation("C04-A5", fi, body[0], f"{name} does not map every element of its argument", robust=True)
             continue
         elt = ge.elt
         if not (isinstance(elt, ast.Call) and call_name(elt) and len(call_name(elt)) == 2 and call_name(elt)[0] == g.target.id):
@@ -490,7 +490,7 @@ def helper_maps(ctx: Ctx, po: PermOps, record: bool = True) -> Dict[str, Map2]:
             if m == D4_POINT[want]:
                 ctx.ok("C04-A5", fi.where, f"{name} maps each element by {want} ({unparse(elt)})", body[0], fi)
             else:
-                ctx.violation("C04-A5", fi, body[0], f"{name} maps each element by {name_of_point_map(m) or repr(m)} ({unparse(elt)}); its name states {want}")
+                ctx.violation("C04-A5", fi, body[0], f"{name} maps each element by {name_of_point_map(m) or repr(m)} ({unparse(elt)}); its name states {want}", robust=True)
     return out
 
 
@@ -504,7 +504,7 @@ def rule_a5(ctx: Ctx, po: PermOps) -> None:
             if got == target:
                 ctx.ok("C04-A5", f"{ci.where}.{alias}", f"alias of {target}")
             elif got is not None:
-                ctx.violation("C04-A5", ci.where, ci.assign_nodes[alias], f"{cname}.{alias} is bound to {got}; a flip across that axis is {target}", file=ci.module.relpath)
+                ctx.violation("C04-A5", ci.where, ci.assign_nodes[alias], f"{cname}.{alias} is bound to {got}; a flip across that axis is {target}", file=ci.module.relpath, robust=True)
             elif alias in ci.methods:
                 raise AnalysisError(f"{cname}.{alias} became a method; not covered")
             else:
